@@ -5,7 +5,12 @@
 //                                                     sN:P  re-parameterise N in place to parameter set P (setPrimes / read(istream&))
 //                                                     uN    use N (one more probe; matters for caches / statics)
 //                                                     dN    destroy N
-// Every request runs in a fork()ed child (a crash or a hang is an observation, not the end of the run).  After EVERY event the
+// Every request runs in a fork()ed child (a crash is an observation, not the end of the run).  The child has a WATCHDOG: a CPU-time
+// limit (RLIMIT_CPU, default 20 s, several hundred times what the slowest history needs; CPU time does not depend on the load of
+// the machine) and a wall-clock alarm (default 900 s).  Its expiry
+// is printed as "X watchdog-cpu" / "X watchdog-wall": that is a statement about the tooling, the python side treats it as
+// INCONCLUSIVE (it re-runs the history alone with much larger limits before concluding anything).  Limits: environment variables
+// C16_CPU_LIMIT / C16_WALL_LIMIT (seconds).  After EVERY event the
 // probe (a fixed set of operations with fixed operands, results converted to integers / text) is evaluated on every live
 // object.  Output, one line per request:
 //     <class> | e0 N=part:hash,part:hash N=... | e1 ... | ... | end        or  ... | X <signal or status>  after a crash
@@ -16,6 +21,9 @@
 #include <unistd.h>
 #include <sys/wait.h>
 #include <signal.h>
+#include <sys/resource.h>
+
+static int env_int(const char* name, int dflt) { const char* v = getenv(name); return v && atoi(v) > 0 ? atoi(v) : dflt; }
 
 static void run_history(const std::string& line, bool verbose, FILE* out) {
     std::istringstream is(line);
@@ -23,10 +31,10 @@ static void run_history(const std::string& line, bool verbose, FILE* out) {
     is >> cls;
     fprintf(out, "%s", cls.c_str()); fflush(out);
     Any* obj[8]; for (int i = 0; i < 8; ++i) obj[i] = 0;
-    if (!make(cls, 0)) { fprintf(out, " | X unknown-class\n"); return; }
+    if (!known_class(cls)) { fprintf(out, " | X unknown-class\n"); return; }      // (no object is built here: the history decides which construction is the first of the process)
     while (is >> ev) {
         char k = ev[0]; int n = ev[1] - '0'; int m = ev.size() > 3 ? atoi(ev.c_str() + 3) : 0;
-        if (k == 'c') obj[n] = make(cls, m);
+        if (k == 'c') { obj[n] = make(cls, m & 3, m >> 2); if (!obj[n]) { fprintf(out, " | X no-such-constructor\n"); fflush(out); return; } }
         else if (k == 'k') obj[n] = obj[m]->copy();
         else if (k == 'a') obj[n]->assign(*obj[m]);
         else if (k == 's') { if (!mutate(cls, obj[n], m)) { fprintf(out, " | X no-mutator\n"); return; } }
@@ -46,23 +54,29 @@ int main(int argc, char** argv) {
     bool verbose = getenv("C16_VERBOSE") != 0;
     bool nofork = getenv("C16_NOFORK") != 0;
     std::string line;
-    std::map<std::string, int> abnormal;        // per class: children that crashed or hung; after 4 the class is skipped (time)
+    std::map<std::string, int> abnormal;        // per class: children that crashed; after 4 the class is skipped (time)
+    std::map<std::string, int> expired;         // per class: children stopped by the watchdog; afterwards the class is skipped by this dispatcher (inconclusive)
+    int cpu_limit = env_int("C16_CPU_LIMIT", 20), wall_limit = env_int("C16_WALL_LIMIT", 900);
     while (std::getline(std::cin, line)) {
         if (line.empty()) continue;
         if (nofork) { run_history(line, verbose, stdout); continue; }
         std::string cls = line.substr(0, line.find(' '));
         if (abnormal[cls] >= 4) { printf("%s | X skipped-after-repeated-crashes\n", cls.c_str()); fflush(stdout); continue; }
+        if (expired[cls] >= 1) { printf("%s | X skipped-after-watchdog\n", cls.c_str()); fflush(stdout); continue; }
         fflush(stdout);
         pid_t pid = fork();
         if (pid == 0) {
-            alarm(8);
+            struct rlimit rl; rl.rlim_cur = (rlim_t)cpu_limit; rl.rlim_max = (rlim_t)cpu_limit + 5; setrlimit(RLIMIT_CPU, &rl);
+            alarm((unsigned)wall_limit);
             FILE* devnull = freopen("/dev/null", "w", stderr); (void)devnull;
             run_history(line, verbose, stdout);
             fflush(stdout);
             _exit(0);
         }
         int st = 0; waitpid(pid, &st, 0);
-        if (WIFSIGNALED(st)) { printf(" | X signal-%d\n", WTERMSIG(st)); ++abnormal[cls]; }
+        if (WIFSIGNALED(st) && (WTERMSIG(st) == SIGXCPU || WTERMSIG(st) == SIGKILL)) { printf(" | X watchdog-cpu\n"); ++expired[cls]; }   // SIGKILL: hard CPU limit / OOM killer
+        else if (WIFSIGNALED(st) && WTERMSIG(st) == SIGALRM) { printf(" | X watchdog-wall\n"); ++expired[cls]; }
+        else if (WIFSIGNALED(st)) { printf(" | X signal-%d\n", WTERMSIG(st)); ++abnormal[cls]; }
         else if (WEXITSTATUS(st) != 0) { printf(" | X exit-%d\n", WEXITSTATUS(st)); ++abnormal[cls]; }
         fflush(stdout);
     }
